@@ -611,21 +611,15 @@ impl Gen {
                 (vec![wire_frame(4, self.undefined_bits(1), 0, rsv, &p)], "settings")
             }
             8 => {
-                // PUSH_PROMISE (+ CONTINUATION); at least one octet of fragment (see malformed mode)
+                // PUSH_PROMISE (+ CONTINUATION)
                 let sid = self.sid_nonzero();
-                let nf = self.rng.range(1, 4) as usize;
+                let nf = self.rng.range(0, 4) as usize;
                 let (block, _) = self.block(nf, false, false);
                 let ncont = if self.rng.chance(1, 3) { self.rng.range(1, 3) as usize } else { 0 };
                 let promised = self.rng.range(0, 0x7fff_ffff) as u32;
                 let padded = self.rng.chance(1, 3);
-                let mut fr = self.header_frames(5, sid, &block, ncont, false, padded, None, promised, max_frame);
-                // an empty first fragment would hit PushPromise::load's `len < 5` rule
-                let plen = ((fr[0][0] as usize) << 16) | ((fr[0][1] as usize) << 8) | fr[0][2] as usize;
-                let padded_now = fr[0][4] & 8 != 0;
-                let pad = if padded_now { fr[0][9] as usize + 1 } else { 0 };
-                if plen - pad < 5 {
-                    fr = self.header_frames(5, sid, &block, 0, false, false, None, promised, max_frame);
-                }
+                // (an empty first fragment is legal and accepted since the `src.len() < 4` repair)
+                let fr = self.header_frames(5, sid, &block, ncont, false, padded, None, promised, max_frame);
                 (fr, "push_promise")
             }
             9 => {
@@ -837,7 +831,7 @@ impl Gen {
                 tag = "self_dependency".into();
             }
             15 => {
-                // PUSH_PROMISE with an empty fragment (h2: MalformedMessage; RFC: fine)
+                // PUSH_PROMISE with an empty fragment (regression: was refused with MalformedMessage)
                 let mut p = Vec::new();
                 let mut fl = 0u8;
                 if self.rng.chance(1, 2) {
